@@ -30,6 +30,11 @@ m = {
          "kind_free_text": "symbolic execution of the real function ASTs of /repo/src/mici with sidecar contracts (pre/post, loop invariants, callee contracts); obligations discharged by z3"},
         {"name": "symla", "path": "vf/symla.py", "serves_properties": sorted(p for p, c in CHECKS.items() if "symla" in c["engine"]),
          "kind_free_text": "the real numeric classes executed on exact symbolic (rational-function) arrays with contract shims for LAPACK primitives"},
+        {"name": "ncalg", "path": "vf/ncalg.py", "serves_properties": sorted(p for p, c in CHECKS.items() if "ncalg" in c["engine"]),
+         "kind_free_text": "the real matrix classes executed on typed non-commutative polynomials over matrix atoms of symbolic dimension (contract stubs for operands and LAPACK "
+                           "primitives, defining relations as rewrite rules, log-determinants in a linear layer with explicitly instantiated lemmas); rule table re-proved in lean/MatrixLemmas.lean"},
+        {"name": "lean", "path": "lean/MatrixLemmas.lean", "serves_properties": ["C10"],
+         "kind_free_text": "Lean 4.33 + Mathlib: the rule table of Engine D for matrices of arbitrary finite dimension over the reals (type-checked in every C10 run)"},
     ],
     "checks": checks,
     "not_applicable": na,
